@@ -227,6 +227,23 @@ func (t *txnRun) write(a []string) string {
 			flags, _ := strconv.Atoi(a[4])
 			hid, _ := strconv.Atoi(a[5])
 			var err error
+			if hid%2 == 1 {
+				// the same write through the *Route entry points: NewRoute, then HandleRoute / UpdateRoute
+				rte, nerr := t.f.NewRoute(unhx(a[3]), noopHandler, routeOpts(flags, hid)...)
+				switch {
+				case nerr != nil:
+					err = nerr
+				case a[0] == "H" && txn != nil:
+					err = txn.HandleRoute(a[2], rte)
+				case a[0] == "H":
+					err = t.f.HandleRoute(a[2], rte)
+				case txn != nil:
+					err = txn.UpdateRoute(a[2], rte)
+				default:
+					err = t.f.UpdateRoute(a[2], rte)
+				}
+				return classifyErr(err)
+			}
 			switch {
 			case a[0] == "H" && txn != nil:
 				_, err = txn.Handle(a[2], unhx(a[3]), noopHandler, routeOpts(flags, hid)...)
